@@ -156,7 +156,7 @@ namespace glm
 		GLM_STATIC_ASSERT(std::numeric_limits<genType>::is_iec559 || GLM_CONFIG_UNRESTRICTED_FLOAT, "'iround' only accept floating-point inputs");
 		assert(static_cast<genType>(0.0) <= x);
 
-		return static_cast<int>(x + static_cast<genType>(0.5));
+		return static_cast<int>(glm::round(x));
 	}
 
 	template<typename genType>
@@ -165,6 +165,6 @@ namespace glm
 		GLM_STATIC_ASSERT(std::numeric_limits<genType>::is_iec559 || GLM_CONFIG_UNRESTRICTED_FLOAT, "'uround' only accept floating-point inputs");
 		assert(static_cast<genType>(0.0) <= x);
 
-		return static_cast<uint>(x + static_cast<genType>(0.5));
+		return static_cast<uint>(glm::round(x));
 	}
 }//namespace glm
